@@ -1,1 +1,515 @@
+(* C19 — lemmas.  Part 1: Network.sort on flat paths (inversion-count argument).
+   Part 2: soundness of the certificate checker. *)
+From Coq Require Import Permutation Relations.
 From V Require Import C19.Model.
+Local Open Scope nat_scope.
+
+(* ================================================================== part 1 *)
+Section SortProofs.
+Variables (U St : Type).
+Variable reach : U -> U -> bool.
+Variable direct : U -> U -> list St.
+
+Notation split_first := (split_first reach).
+Notation sweep := (sweep reach direct).
+Notation sort_loop := (sort_loop reach direct).
+Notation sort := (sort reach direct).
+
+(* number of elements of l that are upstream of u (they should not come after u) *)
+Definition bad (u : U) (l : list U) : nat := length (filter (fun x => reach x u) l).
+
+(* number of inversions: pairs i < j with l[j] upstream of l[i] *)
+Fixpoint inv (l : list U) : nat :=
+  match l with
+  | [] => 0
+  | u :: t => bad u t + inv t
+  end.
+
+Lemma bad_app : forall u l1 l2, bad u (l1 ++ l2) = bad u l1 + bad u l2.
+Proof. intros u l1 l2. unfold bad. rewrite filter_app, app_length. reflexivity. Qed.
+
+Lemma bad_cons : forall u x l, bad u (x :: l) = (if reach x u then 1 else 0) + bad u l.
+Proof. intros u x l. unfold bad. cbn [filter]. destruct (reach x u); reflexivity. Qed.
+
+Lemma bad_perm : forall u l1 l2, Permutation l1 l2 -> bad u l1 = bad u l2.
+Proof.
+  intros u l1 l2 P. induction P as [|x l l' P IH|x y l|l l' l'' P1 IH1 P2 IH2].
+  - reflexivity.
+  - rewrite !bad_cons, IH. reflexivity.
+  - rewrite !bad_cons. lia.
+  - congruence.
+Qed.
+
+Lemma bad_le : forall u l, bad u l <= length l.
+Proof.
+  intros u l. unfold bad. induction l as [|x t IH]; cbn [filter length]; [lia|].
+  destruct (reach x u); cbn [length]; lia.
+Qed.
+
+Lemma bad_zero : forall u l, Forall (fun x => reach x u = false) l -> bad u l = 0.
+Proof.
+  intros u l F. induction F as [|x l Hx F IH]; [reflexivity|].
+  rewrite bad_cons, Hx, IH. reflexivity.
+Qed.
+
+Lemma bad_zero_inv : forall u l, bad u l = 0 -> Forall (fun x => reach x u = false) l.
+Proof.
+  intros u l. induction l as [|x l IH]; intros B; [constructor|].
+  rewrite bad_cons in B. destruct (reach x u) eqn:R; [discriminate|].
+  constructor; [exact R|apply IH; exact B].
+Qed.
+
+Lemma inv_insert_ge : forall y b a, bad y a + inv (b ++ a) <= inv (b ++ y :: a).
+Proof.
+  intros y b a. induction b as [|x b IH]; cbn [app inv].
+  - lia.
+  - rewrite !bad_app, bad_cons. lia.
+Qed.
+
+Lemma inv_bound : forall l, inv l + length l <= length l * length l.
+Proof.
+  induction l as [|u t IH]; cbn [inv length]; [lia|].
+  pose proof (bad_le u t) as B. nia.
+Qed.
+
+(* ---- split_first *)
+Lemma split_first_some : forall u l b y a,
+  split_first u l = Some (b, y, a) ->
+  l = b ++ y :: a /\ reach y u = true /\ Forall (fun x => reach x u = false) b.
+Proof.
+  intros u l. induction l as [|x t IH]; intros b y a H; cbn [Model.split_first] in H; [discriminate|].
+  destruct (reach x u) eqn:R.
+  - inversion H; subst. repeat split; auto.
+  - destruct (split_first u t) as [[[b' y'] a']|] eqn:E; [|discriminate].
+    inversion H; subst. destruct (IH _ _ _ eq_refl) as (L & Ry & F).
+    subst t. repeat split; auto.
+Qed.
+
+Lemma split_first_none : forall u l,
+  split_first u l = None -> Forall (fun x => reach x u = false) l.
+Proof.
+  intros u l. induction l as [|x t IH]; intros H; cbn [Model.split_first] in H; [constructor|].
+  destruct (reach x u) eqn:R; [discriminate|].
+  destruct (split_first u t) as [[[b' y'] a']|] eqn:E; [discriminate|].
+  constructor; auto.
+Qed.
+
+(* ---- sweep: permutation (no hypothesis on reach) *)
+Lemma sweep_perm : forall f l, Permutation (fst (fst (sweep f l))) l.
+Proof.
+  induction f as [|f IH]; intros l; [reflexivity|].
+  destruct l as [|u t]; [reflexivity|]. cbn [Model.sweep].
+  destruct (split_first u t) as [[[b y] a]|] eqn:E.
+  - destruct (split_first_some _ _ _ _ _ E) as (L & _ & _). subst t.
+    destruct (reach u y).
+    + pose proof (IH (b ++ y :: a)) as P.
+      destruct (Model.sweep reach direct f (b ++ y :: a)) as [[r m] rs]. cbn [fst] in *.
+      apply perm_skip. exact P.
+    + pose proof (IH (u :: b ++ a)) as P.
+      destruct (Model.sweep reach direct f (u :: b ++ a)) as [[r m] rs]. cbn [fst] in *.
+      apply Permutation_trans with (y :: u :: b ++ a); [apply perm_skip; exact P|].
+      apply Permutation_trans with (u :: y :: b ++ a); [apply perm_swap|].
+      apply perm_skip. apply Permutation_middle.
+  - pose proof (IH t) as P.
+    destruct (Model.sweep reach direct f t) as [[r m] rs]. cbn [fst] in *.
+    apply perm_skip. exact P.
+Qed.
+
+Lemma sort_loop_perm : forall n l, Permutation (fst (fst (sort_loop n l))) l.
+Proof.
+  induction n as [|n IH]; intros l; [reflexivity|]. cbn [Model.sort_loop].
+  pose proof (sweep_perm (length l) l) as P.
+  destruct (Model.sweep reach direct (length l) l) as [[r m] rs]. cbn [fst] in P.
+  destruct m.
+  - pose proof (IH r) as P2.
+    destruct (Model.sort_loop reach direct n r) as [[r' stop] rs']. cbn [fst] in *.
+    eapply Permutation_trans; eauto.
+  - exact P.
+Qed.
+
+Lemma sort_perm_lemma : forall l, Permutation (sorted_path reach direct l) l.
+Proof.
+  intros l. unfold sorted_path, Model.sort. destruct l as [|u t]; [reflexivity|].
+  apply sort_loop_perm.
+Qed.
+
+Lemma sort_order_independent_lemma : forall l1 l2, Permutation l1 l2 ->
+  Permutation (sorted_path reach direct l1) (sorted_path reach direct l2).
+Proof.
+  intros l1 l2 P.
+  eapply Permutation_trans; [apply sort_perm_lemma|].
+  eapply Permutation_trans; [exact P|]. apply Permutation_sym, sort_perm_lemma.
+Qed.
+
+Lemma strict_onb_sound : forall l, strict_onb reach l = true ->
+  (forall a b c, In a l -> In b l -> In c l -> reach a b = true -> reach b c = true -> reach a c = true) /\
+  (forall a, In a l -> reach a a = false).
+Proof.
+  intros l H. unfold strict_onb in H. apply andb_true_iff in H. destruct H as (I & T).
+  rewrite forallb_forall in I, T. split.
+  - intros a b c Ha Hb Hc Rab Rbc.
+    pose proof (T a Ha) as Ta. rewrite forallb_forall in Ta.
+    pose proof (Ta b Hb) as Tb. rewrite forallb_forall in Tb.
+    pose proof (Tb c Hc) as Tc. rewrite Rab, Rbc in Tc. cbn in Tc. exact Tc.
+  - intros a Ha. pose proof (I a Ha) as Ia. destruct (reach a a); [discriminate|reflexivity].
+Qed.
+
+(* ---- under a strict partial order on the items of the path (dom = any set containing them) *)
+Variable dom : U -> Prop.
+Hypothesis reach_trans : forall a b c, dom a -> dom b -> dom c ->
+  reach a b = true -> reach b c = true -> reach a c = true.
+Hypothesis reach_irrefl : forall a, dom a -> reach a a = false.
+
+Lemma sweep_inv : forall f l, length l <= f -> (forall x, In x l -> dom x) ->
+  forall r m rs, sweep f l = (r, m, rs) ->
+  (m = true -> inv r < inv l) /\ (m = false -> inv r = 0) /\ rs = [].
+Proof.
+  induction f as [|f IH]; intros l Hf D r m rs E.
+  - destruct l; [|cbn in Hf; lia]. cbn in E. inversion E; subst. repeat split; auto; discriminate.
+  - destruct l as [|u t].
+    { cbn in E. inversion E; subst. repeat split; auto; discriminate. }
+    cbn [length] in Hf. cbn [Model.sweep] in E.
+    assert (Du : dom u) by (apply D; left; reflexivity).
+    destruct (split_first u t) as [[[b y] a]|] eqn:Sp.
+    + destruct (split_first_some _ _ _ _ _ Sp) as (L & Ryu & Fb). subst t.
+      assert (Dy : dom y) by (apply D; right; apply in_or_app; right; left; reflexivity).
+      assert (Db : forall x, In x b -> dom x) by (intros x Hx; apply D; right; apply in_or_app; left; exact Hx).
+      destruct (reach u y) eqn:Ruy.
+      { (* mutual reachability contradicts the strict order *)
+        pose proof (reach_trans _ _ _ Du Dy Du Ruy Ryu) as C. rewrite (reach_irrefl _ Du) in C. discriminate. }
+      destruct (Model.sweep reach direct f (u :: b ++ a)) as [[r' m'] rs'] eqn:Sw.
+      inversion E; subst r m rs. clear E.
+      assert (Hlen : length (u :: b ++ a) <= f).
+      { cbn [length]. rewrite app_length in *. cbn [length] in Hf. lia. }
+      assert (D' : forall x, In x (u :: b ++ a) -> dom x).
+      { intros x Hx. apply D. cbn [In] in *. rewrite in_app_iff in *. cbn [In]. tauto. }
+      destruct (IH _ Hlen D' _ _ _ Sw) as (Hlt & Hz & Hrs).
+      assert (Hle : inv r' <= inv (u :: b ++ a)).
+      { destruct m'; [specialize (Hlt eq_refl); lia|rewrite (Hz eq_refl); lia]. }
+      pose proof (sweep_perm f (u :: b ++ a)) as P. rewrite Sw in P. cbn [fst] in P.
+      assert (Byb : bad y b = 0).
+      { apply bad_zero. rewrite Forall_forall in *. intros x Hx.
+        destruct (reach x y) eqn:Rxy; [|reflexivity].
+        pose proof (Fb x Hx) as Fx. rewrite (reach_trans _ _ _ (Db x Hx) Dy Du Rxy Ryu) in Fx. discriminate Fx. }
+      assert (Bub : bad u b = 0) by (apply bad_zero; exact Fb).
+      split; [|split; [discriminate|exact Hrs]].
+      intros _. cbn [inv].
+      rewrite (bad_perm y _ _ P), bad_cons, Ruy, !bad_app, bad_cons, Ryu, Byb, Bub.
+      pose proof (inv_insert_ge y b a) as G.
+      cbn [inv] in Hle. rewrite bad_app, Bub in Hle. lia.
+    + pose proof (split_first_none _ _ Sp) as Ft.
+      destruct (Model.sweep reach direct f t) as [[r' m'] rs'] eqn:Sw.
+      inversion E; subst r m rs. clear E.
+      assert (Hlen : length t <= f) by lia.
+      assert (D' : forall x, In x t -> dom x) by (intros x Hx; apply D; right; exact Hx).
+      destruct (IH _ Hlen D' _ _ _ Sw) as (Hlt & Hz & Hrs).
+      pose proof (sweep_perm f t) as P. rewrite Sw in P. cbn [fst] in P.
+      cbn [inv]. rewrite (bad_perm u _ _ P), (bad_zero u t Ft).
+      split; [|split; [|exact Hrs]].
+      * intros M. specialize (Hlt M). lia.
+      * intros M. rewrite (Hz M). reflexivity.
+Qed.
+
+Lemma sort_loop_done : forall n l, inv l < n -> (forall x, In x l -> dom x) ->
+  forall r stop rs, sort_loop n l = (r, stop, rs) -> stop = true /\ rs = [] /\ inv r = 0.
+Proof.
+  induction n as [|n IH]; intros l Hn D r stop rs E; [lia|].
+  cbn [Model.sort_loop] in E.
+  destruct (Model.sweep reach direct (length l) l) as [[r1 m] rs1] eqn:Sw.
+  destruct (sweep_inv _ _ (le_n _) D _ _ _ Sw) as (Hlt & Hz & Hrs). subst rs1.
+  pose proof (sweep_perm (length l) l) as P. rewrite Sw in P. cbn [fst] in P.
+  destruct m.
+  - specialize (Hlt eq_refl).
+    destruct (Model.sort_loop reach direct n r1) as [[r2 stop2] rs2] eqn:Sl.
+    inversion E; subst. assert (Hn' : inv r1 < n) by lia.
+    assert (D' : forall x, In x r1 -> dom x) by (intros x Hx; apply D; eapply Permutation_in; eauto).
+    destruct (IH _ Hn' D' _ _ _ Sl) as (A & B & C). subst. auto.
+  - inversion E; subst. auto.
+Qed.
+
+Lemma sort_done : forall l, (forall x, In x l -> dom x) ->
+  forall r stop rs, sort l = (r, stop, rs) -> stop = true /\ rs = [] /\ inv r = 0.
+Proof.
+  intros l D r stop rs E. unfold Model.sort in E. destruct l as [|u t].
+  - inversion E; subst. auto.
+  - eapply sort_loop_done; [|exact D|exact E].
+    pose proof (inv_bound (u :: t)) as B. cbn [length] in *. lia.
+Qed.
+
+Lemma inv_zero_nth : forall l d, inv l = 0 ->
+  forall i j, i < j -> j < length l -> reach (nth j l d) (nth i l d) = false.
+Proof.
+  induction l as [|u t IH]; intros d Z i j Hij Hj; [cbn in Hj; lia|].
+  cbn [inv] in Z. assert (B : bad u t = 0) by lia. assert (Zt : inv t = 0) by lia.
+  destruct j as [|j]; [lia|]. cbn [length] in Hj.
+  destruct i as [|i]; cbn [nth].
+  - pose proof (bad_zero_inv _ _ B) as F. rewrite Forall_forall in F.
+    apply F. apply nth_In. lia.
+  - apply IH; auto; lia.
+Qed.
+
+Lemma sort_topo_lemma : forall l, (forall x, In x l -> dom x) ->
+  forall d i j, i < j -> j < length l ->
+  reach (nth j (sorted_path reach direct l) d) (nth i (sorted_path reach direct l) d) = false.
+Proof.
+  intros l D d i j Hij Hj. unfold sorted_path.
+  destruct (sort l) as [[r stop] rs] eqn:E. cbn [fst].
+  destruct (sort_done _ D _ _ _ E) as (_ & _ & Z).
+  apply inv_zero_nth; auto.
+  pose proof (sort_perm_lemma l) as P. unfold sorted_path in P. rewrite E in P. cbn [fst] in P.
+  rewrite (Permutation_length P). exact Hj.
+Qed.
+
+Lemma sort_quiet_lemma : forall l, (forall x, In x l -> dom x) ->
+  sort_stop reach direct l = true /\ sort_recycles reach direct l = [].
+Proof.
+  intros l D. unfold sort_stop, sort_recycles.
+  destruct (sort l) as [[r stop] rs] eqn:E. cbn [fst snd].
+  destruct (sort_done _ D _ _ _ E) as (A & B & _). auto.
+Qed.
+
+(* a stream u -> v (hence reach u v) between two units of the path runs forward in the sorted path *)
+Lemma sort_forward_lemma : forall l, (forall x, In x l -> dom x) ->
+  forall u v i j, reach u v = true ->
+  nth_error (sorted_path reach direct l) i = Some u ->
+  nth_error (sorted_path reach direct l) j = Some v -> i < j.
+Proof.
+  intros l D u v i j R Hi Hj.
+  pose proof (sort_perm_lemma l) as P. pose proof (Permutation_length P) as Len.
+  assert (Li : i < length l) by (rewrite <- Len; apply nth_error_Some; congruence).
+  assert (Lj : j < length l) by (rewrite <- Len; apply nth_error_Some; congruence).
+  destruct (Nat.lt_trichotomy i j) as [H|[H|H]]; [exact H| |].
+  - subst j. assert (u = v) by congruence. subst v.
+    assert (Du : dom u) by (apply D; eapply Permutation_in; [exact P|eapply nth_error_In; eauto]).
+    rewrite (reach_irrefl _ Du) in R. discriminate.
+  - pose proof (sort_topo_lemma l D u j i H Li) as T.
+    rewrite (nth_error_nth _ _ u Hi), (nth_error_nth _ _ u Hj) in T. congruence.
+Qed.
+End SortProofs.
+
+(* ================================================================== part 2 *)
+Lemma memb_In : forall x l, memb x l = true <-> In x l.
+Proof.
+  intros x l. unfold memb. rewrite existsb_exists. split.
+  - intros (y & Hy & E). apply Nat.eqb_eq in E. subst. exact Hy.
+  - intros H. exists x. split; [exact H|apply Nat.eqb_refl].
+Qed.
+
+Lemma nodupb_NoDup : forall l, nodupb l = true -> NoDup l.
+Proof.
+  induction l as [|x t IH]; intros H; [constructor|].
+  cbn [nodupb] in H. apply andb_true_iff in H. destruct H as (N & R).
+  constructor; [|apply IH; exact R].
+  intros I. apply memb_In in I. rewrite I in N. discriminate.
+Qed.
+
+Lemma count_cons : forall x y l, count x (y :: l) = (if x =? y then 1 else 0) + count x l.
+Proof. intros x y l. unfold count. cbn [filter]. destruct (x =? y); reflexivity. Qed.
+
+Lemma count_zero_notin : forall x l, count x l = 0 -> ~ In x l.
+Proof.
+  intros x l. induction l as [|y t IH]; intros C I; [exact I|].
+  rewrite count_cons in C. destruct I as [I|I].
+  - subst. rewrite Nat.eqb_refl in C. discriminate.
+  - destruct (x =? y); [discriminate|]. exact (IH C I).
+Qed.
+
+Lemma count_pos_in : forall x l, 0 < count x l -> In x l.
+Proof.
+  intros x l. induction l as [|y t IH]; intros C; [cbn in C; lia|].
+  rewrite count_cons in C. destruct (x =? y) eqn:E.
+  - apply Nat.eqb_eq in E. subst. left. reflexivity.
+  - right. apply IH. lia.
+Qed.
+
+Lemma count_one_NoDup : forall l, (forall x, In x l -> count x l = 1) -> NoDup l.
+Proof.
+  induction l as [|a t IH]; intros H; [constructor|].
+  assert (Ca : count a t = 0).
+  { pose proof (H a (or_introl eq_refl)) as C. rewrite count_cons, Nat.eqb_refl in C. lia. }
+  pose proof (count_zero_notin _ _ Ca) as Na.
+  constructor; [exact Na|]. apply IH. intros x Hx.
+  pose proof (H x (or_intror Hx)) as C. rewrite count_cons in C.
+  destruct (x =? a) eqn:E; [|lia].
+  apply Nat.eqb_eq in E. subst. contradiction.
+Qed.
+
+Lemma perm_check_sound : forall units path, perm_check units path = true ->
+  Permutation path units /\ NoDup path.
+Proof.
+  intros units path H. unfold perm_check in H.
+  apply andb_true_iff in H. destruct H as (H & Hin).
+  apply andb_true_iff in H. destruct H as (Hnd & Hcnt).
+  rewrite forallb_forall in Hin, Hcnt.
+  assert (ND : NoDup path).
+  { apply count_one_NoDup. intros x Hx. apply Nat.eqb_eq, Hcnt, memb_In, Hin, Hx. }
+  split; [|exact ND].
+  apply NoDup_Permutation; [exact ND|apply nodupb_NoDup; exact Hnd|].
+  intros x. split.
+  - intros Hx. apply memb_In, Hin, Hx.
+  - intros Hx. apply count_pos_in. pose proof (Hcnt x Hx) as C. apply Nat.eqb_eq in C. lia.
+Qed.
+
+Lemma index_nth : forall x l i, index x l = Some i -> nth_error l i = Some x.
+Proof.
+  intros x l. induction l as [|y t IH]; intros i H; cbn [index] in H; [discriminate|].
+  destruct (x =? y) eqn:E.
+  - inversion H; subst. apply Nat.eqb_eq in E. subst. reflexivity.
+  - destruct (index x t) as [k|]; [|discriminate]. inversion H; subst. cbn. apply IH. reflexivity.
+Qed.
+
+Lemma NoDup_nth_unique : forall (l : list nat) i j x, NoDup l ->
+  nth_error l i = Some x -> nth_error l j = Some x -> i = j.
+Proof.
+  intros l i j x ND Hi Hj.
+  apply (proj1 (NoDup_nth_error l) ND); [apply nth_error_Some; congruence|congruence].
+Qed.
+
+Lemma forward_sound : forall path e, forward path e = true ->
+  exists i j, nth_error path i = Some (src e) /\ nth_error path j = Some (dst e) /\ i < j.
+Proof.
+  intros path e H. unfold forward in H.
+  destruct (index (src e) path) as [i|] eqn:Ei; [|discriminate].
+  destruct (index (dst e) path) as [j|] eqn:Ej; [|discriminate].
+  exists i, j. repeat split; [apply index_nth; exact Ei|apply index_nth; exact Ej|apply Nat.ltb_lt; exact H].
+Qed.
+
+(* ---- the flowsheet as a relation *)
+Definition step (es : list edge) (u v : nat) : Prop := exists s, In (s, u, v) es.
+Definition has_cycle (es : list edge) : Prop := exists u, clos_trans nat (step es) u u.
+
+Lemma has_edge_step : forall es u v, has_edge es u v = true -> step es u v.
+Proof.
+  intros es u v H. unfold has_edge in H. apply existsb_exists in H.
+  destruct H as ([[s a] b] & I & E). unfold src, dst in E. cbn [fst snd] in E.
+  apply andb_true_iff in E. destruct E as (E1 & E2).
+  apply Nat.eqb_eq in E1, E2. subst. exists s. exact I.
+Qed.
+
+Lemma walk_check_sound : forall es first c u, walk_check es first (u :: c) = true ->
+  clos_trans nat (step es) u first.
+Proof.
+  intros es first c. induction c as [|v t IH]; intros u H.
+  - cbn [walk_check] in H. apply t_step, has_edge_step, H.
+  - cbn [walk_check] in H. apply andb_true_iff in H. destruct H as (E & W).
+    eapply t_trans; [apply t_step, has_edge_step, E|apply IH, W].
+Qed.
+
+Lemma cycle_check_sound : forall es c, cycle_check es c = true -> has_cycle es.
+Proof.
+  intros es c H. destruct c as [|u t]; [discriminate|].
+  exists u. apply (walk_check_sound es u t u H).
+Qed.
+
+Lemma forward_all_acyclic : forall es path, NoDup path ->
+  forallb (forward path) es = true -> ~ has_cycle es.
+Proof.
+  intros es path ND F (u & C).
+  rewrite forallb_forall in F.
+  assert (K : forall a b, clos_trans nat (step es) a b ->
+              exists i j, nth_error path i = Some a /\ nth_error path j = Some b /\ i < j).
+  { intros a b T. induction T as [a b (s & I)|a b c T1 IH1 T2 IH2].
+    - destruct (forward_sound _ _ (F _ I)) as (i & j & Hi & Hj & L). exists i, j. auto.
+    - destruct IH1 as (i & j & Hi & Hj & L). destruct IH2 as (j' & k & Hj' & Hk & L').
+      assert (j = j') by (eapply NoDup_nth_unique; eauto). subst j'.
+      exists i, k. repeat split; auto; lia. }
+  destruct (K _ _ C) as (i & j & Hi & Hj & L).
+  assert (i = j) by (eapply NoDup_nth_unique; eauto). lia.
+Qed.
+
+(* ---- the clauses of C19, declaratively, on the observed network *)
+Definition exactly_once (units : list nat) (net : item) : Prop :=
+  Permutation (flat net) units /\ NoDup (flat net).
+
+(* no cycle: every unit once, after all units that feed it, no recycle reported *)
+Definition acyclic_clause (units : list nat) (es : list edge) (net : item) : Prop :=
+  exactly_once units net /\
+  (forall s u v, In (s, u, v) es ->
+     In u (flat net) /\ In v (flat net) /\
+     forall i j, nth_error (flat net) i = Some u -> nth_error (flat net) j = Some v -> i < j) /\
+  all_recycles net = [].
+
+(* cycles: every unit in the path, at least one recycle, and every stream that runs against the
+   path order has both ends inside one (sub-)network that carries a recycle *)
+Definition cyclic_clause (units : list nat) (es : list edge) (net : item) : Prop :=
+  exactly_once units net /\
+  all_recycles net <> [] /\
+  (forall s u v i j, In (s, u, v) es ->
+     nth_error (flat net) i = Some u -> nth_error (flat net) j = Some v -> j <= i ->
+     exists members recycle, In (members, recycle) (subnets net) /\ recycle <> [] /\
+                             In u members /\ In v members).
+
+Lemma is_nil_true : forall A (l : list A), is_nil l = true -> l = [].
+Proof. intros A l H. destruct l; [reflexivity|discriminate]. Qed.
+
+Lemma nth_error_In' : forall (l : list nat) i x, nth_error l i = Some x -> In x l.
+Proof. intros l i x H. eapply nth_error_In; eauto. Qed.
+
+Lemma check_acyclic_sound : forall units es net, check_acyclic units es net = true ->
+  acyclic_clause units es net /\ ~ has_cycle es.
+Proof.
+  intros units es net H. unfold check_acyclic in H.
+  apply andb_true_iff in H. destruct H as (H & R).
+  apply andb_true_iff in H. destruct H as (P & F).
+  destruct (perm_check_sound _ _ P) as (Pm & ND).
+  split; [|eapply forward_all_acyclic; eauto].
+  split; [split; assumption|]. split; [|apply is_nil_true; exact R].
+  intros s u v I. rewrite forallb_forall in F.
+  destruct (forward_sound _ _ (F _ I)) as (i0 & j0 & Hi0 & Hj0 & L).
+  unfold src, dst in Hi0, Hj0. cbn [fst snd] in Hi0, Hj0.
+  split; [eapply nth_error_In'; eauto|]. split; [eapply nth_error_In'; eauto|].
+  intros i j Hi Hj.
+  assert (i = i0) by (eapply NoDup_nth_unique; eauto).
+  assert (j = j0) by (eapply NoDup_nth_unique; eauto). lia.
+Qed.
+
+Lemma covered_sound : forall subs u v, covered subs u v = true ->
+  exists m r, In (m, r) subs /\ r <> [] /\ In u m /\ In v m.
+Proof.
+  intros subs u v H. unfold covered in H. apply existsb_exists in H.
+  destruct H as ([m r] & I & E). cbn [fst snd] in E.
+  apply andb_true_iff in E. destruct E as (E & Mv).
+  apply andb_true_iff in E. destruct E as (Nr & Mu).
+  exists m, r. repeat split; [exact I| |apply memb_In; exact Mu|apply memb_In; exact Mv].
+  intros Z. subst r. discriminate.
+Qed.
+
+Lemma check_cyclic_sound : forall units es net cyc, check_cyclic units es net cyc = true ->
+  cyclic_clause units es net /\ has_cycle es.
+Proof.
+  intros units es net cyc H. unfold check_cyclic in H.
+  apply andb_true_iff in H. destruct H as (H & B).
+  apply andb_true_iff in H. destruct H as (H & C).
+  apply andb_true_iff in H. destruct H as (P & R).
+  destruct (perm_check_sound _ _ P) as (Pm & ND).
+  split; [|eapply cycle_check_sound; eauto].
+  split; [split; assumption|]. split.
+  - intros Z. rewrite Z in R. discriminate.
+  - intros s u v i j I Hi Hj Le. rewrite forallb_forall in B.
+    pose proof (B _ I) as Be. apply andb_true_iff in Be. destruct Be as (_ & Be).
+    unfold src, dst in Be. cbn [fst snd] in Be.
+    apply orb_true_iff in Be. destruct Be as [Fw|Cv]; [|apply covered_sound; exact Cv].
+    destruct (forward_sound _ _ Fw) as (i0 & j0 & Hi0 & Hj0 & L).
+    unfold src, dst in Hi0, Hj0. cbn [fst snd] in Hi0, Hj0.
+    assert (i = i0) by (eapply NoDup_nth_unique; eauto).
+    assert (j = j0) by (eapply NoDup_nth_unique; eauto). lia.
+Qed.
+
+Lemma check_sound_lemma : forall units es net cyc, check units es net cyc = true ->
+  (~ has_cycle es -> acyclic_clause units es net) /\
+  (has_cycle es -> cyclic_clause units es net).
+Proof.
+  intros units es net cyc H. unfold check in H. destruct (is_nil cyc).
+  - destruct (check_acyclic_sound _ _ _ H) as (A & N). split; [auto|]. intros C. contradiction.
+  - destruct (check_cyclic_sound _ _ _ _ H) as (A & C). split; [|auto]. intros N. contradiction.
+Qed.
+
+(* what the checker rejects: a path in which some unit occurs twice is never accepted *)
+Lemma check_rejects_duplicates : forall units es net cyc,
+  ~ NoDup (flat net) -> check units es net cyc = false.
+Proof.
+  intros units es net cyc D. destruct (check units es net cyc) eqn:E; [|reflexivity].
+  exfalso. apply D. unfold check in E. destruct (is_nil cyc).
+  - destruct (check_acyclic_sound _ _ _ E) as (((_ & ND) & _) & _). exact ND.
+  - destruct (check_cyclic_sound _ _ _ _ E) as (((_ & ND) & _) & _). exact ND.
+Qed.
